@@ -130,6 +130,11 @@ func (c *channel) newNodeStream(conn *grpc.ClientConn) error {
 	c.streamCtx, c.cancelStream = context.WithCancel(c.parentCtx)
 	c.gorumsClient = ordering.NewGorumsClient(conn)
 	c.gorumsStream, err = c.gorumsClient.NodeStream(c.streamCtx)
+	if err != nil {
+		// no stream was created: release its context, which would
+		// otherwise stay registered with parentCtx until the node is closed.
+		c.cancelStream()
+	}
 	c.streamMut.Unlock()
 	if err != nil {
 		return err
